@@ -1098,21 +1098,30 @@ class TermCanvas(Canvas):
                 if idx + 2 < len(attrs) and attrs[idx + 1] == 5:
                     # 8 bit color specification
                     color = attrs[idx + 2]
+                    idx += 2
+                    if color > 255:
+                        # not a palette index: ignore, like xterm
+                        idx += 1
+                        continue
                     colors = max(256, colors)
                     if attr == 38:
                         fg = color
                     else:
                         bg = color
-                    idx += 2
                 elif idx + 4 < len(attrs) and attrs[idx + 1] == 2:
                     # 24 bit color specification
-                    color = (attrs[idx + 2] << 16) + (attrs[idx + 3] << 8) + attrs[idx + 4]
+                    red, green, blue = attrs[idx + 2 : idx + 5]
+                    idx += 4
+                    if max(red, green, blue) > 255:
+                        # not a color: ignore, like xterm
+                        idx += 1
+                        continue
+                    color = (red << 16) + (green << 8) + blue
                     colors = 2**24
                     if attr == 38:
                         fg = color
                     else:
                         bg = color
-                    idx += 4
             elif attr == 39:
                 # set default foreground color
                 fg = None
